@@ -9,6 +9,7 @@ import (
 	"reflect"
 	"strconv"
 	"strings"
+	"time"
 
 	"github.com/zmap/zcrypto/encoding/asn1"
 )
@@ -120,6 +121,7 @@ var (
 	tFlag  = reflect.TypeOf(asn1.Flag(false))
 	tEnum  = reflect.TypeOf(asn1.Enumerated(0))
 	tBytes = reflect.TypeOf([]byte(nil))
+	tTime  = reflect.TypeOf(time.Time{})
 )
 
 // Type builds the real Go type the schema term denotes.
@@ -147,6 +149,8 @@ func (s *Sch) Type() reflect.Type {
 		return tRaw
 	case "flag":
 		return tFlag
+	case "time":
+		return tTime
 	case "L":
 		return reflect.SliceOf(s.Elem.Type())
 	case "LS":
@@ -184,6 +188,8 @@ func SchemaOf(t reflect.Type) *Sch {
 		return &Sch{Kind: "flag"}
 	case tEnum:
 		return &Sch{Kind: "enum"}
+	case tTime:
+		return &Sch{Kind: "time"}
 	}
 	switch t.Kind() {
 	case reflect.Int64, reflect.Int:
@@ -276,6 +282,8 @@ func Dump(s *Sch, v reflect.Value, out *[]string) {
 			c = "t"
 		}
 		*out = append(*out, fmt.Sprintf("r%d:%d:%s:%s:%s", r.Class, r.Tag, c, hx(r.Bytes), hx(r.FullBytes)))
+	case "time":
+		*out = append(*out, TimeTok(v.Interface().(time.Time)))
 	case "S":
 		*out = append(*out, "V"+strconv.Itoa(len(s.Fields)))
 		for i, f := range s.Fields {
@@ -355,6 +363,8 @@ func Build(s *Sch, t reflect.Type, toks []string) (reflect.Value, []string) {
 		c, _ := strconv.Atoi(p[0])
 		tg, _ := strconv.Atoi(p[1])
 		v.Set(reflect.ValueOf(asn1.RawValue{Class: c, Tag: tg, IsCompound: p[2] == "t", Bytes: unhx(p[3]), FullBytes: unhx(p[4])}))
+	case "time":
+		v.Set(reflect.ValueOf(ParseTimeTok(tok)))
 	case "S":
 		for i, f := range s.Fields {
 			var fv reflect.Value
